@@ -2,7 +2,7 @@
 (***************************************************************************)
 (* C11 - uncommitted changes are never swept into the bump commit.         *)
 (* Four files (two carry a version pattern, two do not), each in one of    *)
-(* the eleven states git can report, rendered as porcelain lines and read    *)
+(* the twelve states git can report, rendered as porcelain lines and read    *)
 (* back by the spec's fixed-column parser:                                 *)
 (*   NoSweep              an update that is not blocked finds every        *)
 (*                        pattern file clean                               *)
@@ -18,7 +18,8 @@ Name(f) == CASE f = "pat1" -> <<112,97,116,49,46,116,120,116>> [] f = "pat2" -> 
              [] f = "oth1" -> <<111,49,46,116,120,116>> [] f = "oth2" -> <<77,32,120,46,116,120,116>>
 OldName(f) == <<111,108,100,95>> \o Name(f)
 PatternPaths == {Name("pat1"), Name("pat2")}
-States == {"clean", " M", "M ", "MM", "A ", "AM", " D", "D ", "R ", "RM", "??"}
+\* "D?" : removed from the index, kept on disk (git rm --cached) - git reports the path twice, as "D " among the tracked entries and as "??" among the untracked ones at the end
+States == {"clean", " M", "M ", "MM", "A ", "AM", " D", "D ", "R ", "RM", "??", "D?"}
 XY(s) == CASE s = " M" -> <<32,77>> [] s = "M " -> <<77,32>> [] s = "MM" -> <<77,77>> [] s = "A " -> <<65,32>> [] s = " D" -> <<32,68>>
            [] s = "D " -> <<68,32>> [] s = "R " -> <<82,32>> [] s = "RM" -> <<82,77>> [] s = "AM" -> <<65,77>> [] s = "??" -> <<63,63>>
 Line(f, s) == XY(s) \o <<32>> \o (IF s \in {"R ", "RM"} THEN GitSpelling(OldName(f)) \o <<32,45,62,32>> \o GitSpelling(Name(f)) ELSE GitSpelling(Name(f)))
@@ -26,11 +27,14 @@ VARIABLES st, allow
 Init == st \in [{"pat1", "pat2", "oth1", "oth2"} -> States] /\ allow \in BOOLEAN
 Next == FALSE /\ UNCHANGED <<st, allow>>
 Dirty == {f \in DOMAIN st : st[f] # "clean"}
-Lines == LET fs == SelectSeq(Files, LAMBDA f : st[f] # "clean") IN [q \in 1..Len(fs) |-> Line(fs[q], st[fs[q]])]
+Tracked == SelectSeq(Files, LAMBDA f : st[f] \notin {"clean", "??"})
+Untracked == SelectSeq(Files, LAMBDA f : st[f] \in {"??", "D?"})
+Rows == [q \in 1..Len(Tracked) |-> [f |-> Tracked[q], s |-> IF st[Tracked[q]] = "D?" THEN "D " ELSE st[Tracked[q]]]] \o [q \in 1..Len(Untracked) |-> [f |-> Untracked[q], s |-> "??"]]
+Lines == [q \in 1..Len(Rows) |-> Line(Rows[q].f, Rows[q].s)]
 B == BlocksD(Lines, "git", PatternPaths, allow, S22)
 NoSweep == ~B => (st["pat1"] = "clean" /\ st["pat2"] = "clean")
 DirtyBlocksUnlessAllowed == (~allow /\ \E f \in Dirty : ~(st[f] = "??" /\ f \in {"oth1", "oth2"})) => B
 UntrackedOthersInert == (\A f \in Dirty : st[f] = "??" /\ f \in {"oth1", "oth2"}) => ~B
-ParseRecovers == \A q \in 1..Len(Lines) : LET e == ParseLineD(Lines[q], "git", S22) f == SelectSeq(Files, LAMBDA x : st[x] # "clean")[q] IN
-                    e.xy = XY(st[f]) /\ e.paths[Len(e.paths)] = Name(f) /\ (st[f] \in {"R ", "RM"} => e.paths[1] = OldName(f))
+ParseRecovers == \A q \in 1..Len(Lines) : LET e == ParseLineD(Lines[q], "git", S22) f == Rows[q].f IN
+                    e.xy = XY(Rows[q].s) /\ e.paths[Len(e.paths)] = Name(f) /\ (Rows[q].s \in {"R ", "RM"} => e.paths[1] = OldName(f))
 =============================================================================
